@@ -8,6 +8,6 @@ namespace WowSrp
 
 /-- C05: reconnect proof = H(U | client data | server data | K) -/
 theorem C05_source_layout : Gen.layoutReconnectProof =
-    [["username.as_ref()", "client_data.as_le_bytes()", "server_data.as_le_bytes()", "session_key.as_le_bytes()"]] := by decide
+    [["username.as_ref()", "client_data.as_le_bytes()", "server_data.as_le_bytes()", "session_key.as_le_bytes()"], ["ctors:Sha1::new", "methods:chain_update,chain_update,chain_update,chain_update,finalize", "control:", "rebound:", "tail:Proof::from_le_bytes(s.into())"]] := by decide +kernel
 
 end WowSrp
